@@ -126,6 +126,8 @@ def run(ctx):
     dimacs_family(ctx)
     tool_outputs(ctx)
     seeded_tools(ctx)
+    import c08_pipeline
+    c08_pipeline.run_pb_pipeline(ctx)
 
     # command line: cnfgen vs pbgen on the same arguments
     from cnfgen.clitools.cnfgen import cli as cnfgen_cli
